@@ -18,6 +18,47 @@ def FUNCTIONS():
             B.predict_quantiles]
 
 
+class _Corr:
+    """2 x 2 SPD covariance given by its eigen-decomposition: S = l1 v1 v1^T + l2 v2 v2^T with
+    v1 = (c, s), v2 = (-s, c), c^2 + s^2 = 1, 0 < l1 <= l2.  inv and eig are then exact."""
+
+    def __init__(self, ctx):
+        self.ctx = ctx
+        c, s = ctx.real("rot_c"), ctx.real("rot_s")
+        ctx.assume(c * c + s * s == 1)
+        l1 = ctx.real("lam1", lo=0, lo_open=True)
+        l2 = ctx.real("lam2", lo=0, lo_open=True)
+        ctx.assume(l1 < l2)       # (strict: keeps sqrt(2 x2_max l_min) the exact term `halfwidth`)
+        self.c, self.s, self.l = Q.of(c), Q.of(s), [Q.of(l1), Q.of(l2)]
+        self.v = [[self.c, self.s], [-self.s, self.c]]          # rows: v1, v2
+
+    def matrix(self, inverse=False):
+        out = np.empty((2, 2), dtype=object)
+        for i in range(2):
+            for j in range(2):
+                out[i, j] = sum((1 / self.l[k] if inverse else self.l[k]) * self.v[k][i] * self.v[k][j]
+                                for k in range(2))
+        return out.view(SymArray)
+
+    def inv(self, a):
+        return self.matrix(inverse=True)
+
+    def eig(self, a):
+        from symx.stubs import choose_permutation
+        perm = choose_permutation(self.ctx, "eigorder", 2)
+        w = np.empty(2, dtype=object)
+        v = np.empty((2, 2), dtype=object)
+        for col, k in enumerate(perm):
+            w[col] = self.l[k]
+            sgn = -1 if bool(self.ctx.bool("eigsign%d" % col)) else 1
+            for r in range(2):
+                v[r, col] = sgn * self.v[k][r]
+        return w.view(SymArray), v.view(SymArray)
+
+    def __getattr__(self, n):
+        return getattr(np.linalg, n)
+
+
 class _LinAlg:
     """np.linalg stand-in for diagonal covariance matrices (m <= 2): exact inverse; eig returns
     the eigenpairs in an arbitrary order with arbitrary signs (all that numpy.linalg.eig
@@ -77,6 +118,9 @@ def _rec_sqrt(a):
         # identical to a sum of squares times positive weights over a positive total)
         v = core.fresh_real("sqrt")
         core.assume_fact(v >= 0)
+        r = Q(v)
+        d = r * r - a                      # v^2 == a, as a polynomial equation
+        core.assume_fact(d.n == 0)
         SQRT_ARGS[str(v)] = a
         return Q(v)
     return np.sqrt(a)
@@ -214,6 +258,61 @@ def _is_perm(ctx, y, x, ys, xs_, n, m):
         else:
             conds.append(all(bool(e) for e in eqs))
     return Or(*conds) if ctx.sym else any(conds)
+
+
+def _corr_concrete(ctx, n):
+    """replay with the real numpy.linalg on the covariance given by the model's decomposition"""
+    import math
+    c, s_ = ctx.real("rot_c"), ctx.real("rot_s")
+    nrm = math.hypot(c, s_)
+    c, s_ = c / nrm, s_ / nrm
+    l1 = ctx.real("lam1", lo=0, lo_open=True)
+    l2 = ctx.real("lam2", lo=0, lo_open=True)
+    v1, v2 = np.array([c, s_]), np.array([-s_, c])
+    S = l1 * np.outer(v1, v1) + l2 * np.outer(v2, v2)
+    y = ctx.real_array("y", (n, 2))
+    x = ctx.real_array("x", (n,))
+    yo = ctx.real_array("yo", (1, 2))
+    w = ctx.real("halfwidth", lo=0)
+    x2 = w * w / (2 * min(l1, l2))
+    b = BM.BMCI(y, x, S)
+    i_l, i_u, ws = b.weights(yo[0, :], x2)
+    Si = np.linalg.inv(S)
+    for r in range(n):
+        if not (int(i_l) <= r < int(i_u)):
+            d = yo[0, :] - b.y[r, :]
+            chi = float(d @ Si @ d)
+            ctx.check("window-is-sound", chi > x2 * (1 - 1e-9), detail="entry left out although chi2=%r <= x2_max=%r" % (chi, x2))
+    ctx.check("window-is-sound", True)
+
+
+@harness("C18.correlated", cases=lambda tier: [1],
+         expect=lambda c: ["window-is-sound"])
+def k_corr(ctx):
+    """m = 2 channels with a *correlated* covariance: the pre-selection along the principal axis
+    of the smallest eigenvalue never drops an entry with chi-square <= x2_max."""
+    n = ctx.case
+    if not ctx.sym:
+        return _corr_concrete(ctx, n)
+    la = _Corr(ctx)
+    S = la.matrix()
+    y = qarray(ctx.real_array("y", (n, 2))).view(SymArray)
+    x = qarray(ctx.real_array("x", (n,))).view(SymArray)
+    yo = qarray(ctx.real_array("yo", (1, 2))).view(SymArray)
+    w = Q.of(ctx.real("halfwidth", lo=0))
+    x2 = w * w / (2 * la.l[0])
+    with patched((BM, "np", make_np({"exp": _wexp, "sqrt": _rec_sqrt}, linalg=la))):
+        SQRT_ARGS.clear()
+        b = BM.BMCI(y, x, S)
+        i_l, i_u, ws = b.weights(yo[0, :], x2)
+    Si = la.matrix(inverse=True)
+    for r in range(n):
+        if not (int(i_l) <= r < int(i_u)):
+            d = [yo[0, c] - b.y[r, c] for c in range(2)]
+            chi = sum(d[i] * Si[i, j] * d[j] for i in range(2) for j in range(2))
+            ctx.check("window-is-sound", chi > x2, detail="entry left out although chi2 <= x2_max")
+    if int(i_l) == 0 and int(i_u) == n:
+        ctx.check("window-is-sound", True)
 
 
 @harness("C18.cdf", cases=_cases_cdf,
@@ -361,6 +460,9 @@ def k_errors(ctx):
 PLAN = {
     "quick": {"harnesses": ["C18.predict", "C18.cdf", "C18.interp-lemma", "C18.errors"],
               "opts": {"query_timeout_ms": 20000, "chunk_paths": 20}},
+    # "C18.correlated" (m = 2 with a correlated covariance) is implemented above but in no plan:
+    # z3's incremental non-linear core decides it in ~25 s in some runs and times out in others,
+    # so it cannot be claimed (DESIGN.md, C18).
     "thorough": {"harnesses": ["C18.predict", "C18.cdf", "C18.interp-lemma", "C18.errors"],
                  "opts": {"query_timeout_ms": 240000, "chunk_paths": 20}, "time_budget": 3000},
 }
